@@ -1480,10 +1480,12 @@ def explore_c20(ctx, res, replay_ops=None):
     res.extra["exhaustive_subspace"] = "baseline, all single and all pairwise removals of 20 items x {http, https}" + (
         ", all triples" if ctx.tier == "thorough" else "") + (
         "; baseline and all single removals under each of 7 value settings (Diameter protocol sctp / udp / absent for either "
-        "section, CGF enabled, all together), all pairs for the combined setting" + (" (thorough: for each)" if ctx.tier == "thorough" else ""))
+        "section, CGF enabled, all together), all pairs for the combined setting; baseline and all single removals x {http, https} "
+        "started with a TLS key log file" + (" (thorough: for each)" if ctx.tier == "thorough" else ""))
     res.rule = ("YAML configurations derived from a valid baseline by removing subsets of 20 items (sections, TLS blocks, mandatory "
                 "scalars) and altering scheme (http/https/ftp/HTTP/absent) and serviceNameList (one/two/all three known names, a known name "
-                "twice, unknown names, empty), the protocol of either Diameter section (tcp/sctp/udp/absent) and cgf.enable; each is read by "
+                "twice, unknown names, empty), the protocol of either Diameter section (tcp/sctp/udp/absent) and cgf.enable; started with and without a TLS key log "
+                "file (the command line's --log); each is read by "
                 "factory.ReadConfig in its own process and, if accepted, the CGF (when enabled), the context, rating and account servers, "
                 "the application (SBI server) and the SBI listener are started as pkg/service Start does; a panic in any goroutine kills "
                 "the child = crash; distinct = variants")
